@@ -99,7 +99,7 @@ func init() {
 		Stub:        []string{"VBFT server (block producer stub assembles and seals blocks as constructBlock does)", "p2p (blocks handed over in memory)"},
 		Assumptions: []string{"process-crash model: a completed LevelDB batch commit and a completed hash-file write survive, nothing buffered by poly does; torn LevelDB batches are excluded by LevelDB's journal CRC", "crash = sentinel panic at a hook point followed by closing the file handles without any poly-level flush"},
 		QuickRuns:   16, ThoroughRuns: 480, QuickCap: 150, ThoroughCap: 1500,
-		RequiredProbes: []string{"crash_recovered_with_replay", "crash_lost_block", "double_crash", "genesis_crash"},
+		RequiredProbes: []string{"crash_recovered_with_replay", "crash_lost_block", "double_crash", "genesis_crash", "history_with_cross_chain_records"},
 		Exhaustive:     true,
 		Generate: func(rng *kernel.RNG, idx int, tier string) *kernel.Plan {
 			n := 4 + rng.Intn(4)
@@ -108,7 +108,7 @@ func init() {
 				steps = 6 + rng.Intn(30)
 			}
 			return &kernel.Plan{Cfg: map[string]int64{"n": int64(n), "maxview": int64(3 + rng.Intn(6))},
-				Steps: GenWorkload(rng, GenCfg{NVal: n, Steps: steps, MaxBlock: 5})}
+				Steps: GenWorkload(rng, GenCfg{NVal: n, Steps: steps, MaxBlock: 5, W: map[string]int{"import": 8, "burst": 2, "chain": 3, "cand": 2, "relayer": 1, "node": 1, "priv": 1, "sig": 1, "noise": 1}})}
 		},
 		Execute: execC12,
 	})
